@@ -353,7 +353,8 @@ func runAccess(c *sim.Ctx) {
 	cfg.DisableCSRF = t.Chance("disable-csrf", 1, 5)
 	cfg.DisableHeaderCheck = t.Chance("disable-header-check", 1, 5)
 	if t.Chance("credentials", 1, 2) {
-		cfg.Username, cfg.Password = []string{"ab", "user", "a"}[t.Int("user", 3)], []string{"c", "secret", "bc"}[t.Int("pass", 3)]
+		long := strings.Repeat("0123456789abcdef", 4) // 64 bytes: what `openssl rand -base64 64` style secrets exceed
+		cfg.Username, cfg.Password = []string{"ab", "user", "a", long + "-operator"}[t.Pick("user", 3, 3, 3, 1)], []string{"c", "secret", "bc", long + "Zm9vYmFyYmF6cXV4", long}[t.Pick("pass", 3, 3, 3, 2, 1)]
 	}
 	if t.Chance("host-whitelist", 1, 3) {
 		cfg.HostWhitelist = []string{"wallet.example:8080"}
@@ -425,7 +426,41 @@ func runAccess(c *sim.Ctx) {
 		// credentials
 		needAuth := cfg.Username != "" || cfg.Password != ""
 		if needAuth {
-			switch t.Pick("auth", 6, 2, 2, 2, 1) {
+			switch t.Pick("auth", 6, 2, 2, 2, 1, 3) {
+			case 5: // near misses: one credential agrees with the configured one on a long prefix only, or is padded
+				u, pw := cfg.Username, cfg.Password
+				near := func(v string) string {
+					switch t.Pick("near-miss", 2, 2, 2, 1, 1) {
+					case 0: // tail differs
+						if len(v) > 1 {
+							return v[:len(v)-1] + string(v[len(v)-1]^1)
+						}
+						return v + "~"
+					case 1: // cut short (to 64 bytes when longer)
+						if len(v) > 64 {
+							return v[:64]
+						}
+						if len(v) > 1 {
+							return v[:len(v)-1]
+						}
+						return ""
+					case 2: // NUL bytes appended
+						return v + "\x00"
+					case 3: // extended
+						return v + v
+					}
+					return strings.ToUpper(v) + "!"
+				}
+				if t.Bool("near-miss-user") {
+					u = near(u)
+				} else {
+					pw = near(pw)
+				}
+				q.hasAuth, q.user, q.pass = true, u, pw
+				if u != cfg.Username || pw != cfg.Password {
+					failing["auth"] = true
+					c.Count("fault.credentials_near_miss")
+				}
 			case 0:
 				q.hasAuth, q.user, q.pass = true, cfg.Username, cfg.Password
 			case 1:
@@ -503,7 +538,31 @@ func runAccess(c *sim.Ctx) {
 		// token
 		stateChanging := method == "POST" || method == "PUT" || method == "DELETE"
 		if stateChanging && rt.uri != "/api/v1/csrf" {
-			switch t.Pick("token", 6, 2, 2, 2, 2, 1) {
+			switch t.Pick("token", 6, 2, 2, 2, 2, 1, 2) {
+			case 6: // used successfully late in its life, then presented again after it has expired
+				tk := a.newToken()
+				if tk == "" {
+					if !cfg.DisableCSRF {
+						failing["undecided"] = true
+					}
+					break
+				}
+				d1 := time.Duration(10+t.Int("token-first-use-age", 19)) * time.Second
+				time.Sleep(d1)
+				q0 := apiReq{method: q.method, uri: q.uri, host: apiHost, ctype: q.ctype, body: q.body, token: tk}
+				if needAuth {
+					q0.hasAuth, q0.user, q0.pass = true, cfg.Username, cfg.Password
+				}
+				r0 := a.do(q0)
+				d2 := 31*time.Second - d1 + time.Duration(t.Int("token-after-expiry", 8))*time.Second
+				time.Sleep(d2)
+				c.SimNanos += int64(d1 + d2)
+				c.Count("fault.token_used_then_expired")
+				c.Logf("token used at age %v (-> %d), presented again at age %v", d1, r0.status, d1+d2)
+				q.token = tk
+				if !cfg.DisableCSRF {
+					failing["csrf"] = true
+				}
 			case 0:
 				superseded = current
 				current = a.newToken()
